@@ -118,6 +118,8 @@ class Translator:
             if key in self.env:
                 return self.env[key]
             raise Untranslatable(f"call {n or canon(e.func)}")
+        if isinstance(e, ast.Attribute) and canon(e).startswith("np.finfo(") and e.attr in ("max", "eps", "tiny"):
+            return self.sym("FINFO_" + e.attr.upper())
         if isinstance(e, ast.IfExp):
             raise Untranslatable("conditional expression")
         raise Untranslatable(e.__class__.__name__)
